@@ -568,25 +568,49 @@ def fmt_part(p):
 # ---------------------------------------------------------------------------
 # shape classes used in violation keys (known-findings matching)
 
-def chain_end_shape(doc):
-  """Canonical class of the features that sit on the OUTER ends of the
-  reference chains of doc:
-    'hairpin-or-selflink-on-chain-end'  some dovetail other than a walked
-        step has BOTH its ends on outer ends of one and the same chain (a
-        hairpin on one outer end, a link between the two outer ends of a
-        chain - which becomes a self-link of the merged segment -, or the
-        closing edge of a cycle);
-    'plain'  otherwise (including: no chain at all)."""
+def outer_ends(ch):
+  return set((n, x) for n in ch.members for x in "LR" if (n, x) not in ch.adj)
+
+
+def shape_class(doc, paths=None):
+  """Canonical class of a graph with respect to merging: the '+'-joined,
+  sorted list of the features below, or 'plain' if none applies.
+
+    hairpin-on-chain-end   a hairpin dovetail (one segment end joined with
+        itself) sits on an outer end of a reference chain
+    placeholder-before-sequence   (needs the walk) some chain, walked as the
+        implementation chose, has a member without sequence before a member
+        with a sequence
+    gfa2-reattached-edge   (GFA2, needs the walk) some dovetail other than a
+        walked step is incident to a chain end and would need new positions
+        on the merged segment, i.e. it is not on the left end of a first
+        member that is walked forwards
+  """
+  feats = set()
   cl = chains(doc)
   for ch in cl:
-    outer = set()
-    for n in ch.members:
-      for x in "LR":
-        if (n, x) not in ch.adj:
-          outer.add((n, x))
-    if ch.cyclic:
-      return "hairpin-or-selflink-on-chain-end"
+    outer = outer_ends(ch)
     for e in doc.dovetails:
-      if e.a in outer and e.b in outer:
-        return "hairpin-or-selflink-on-chain-end"
-  return "plain"
+      if e.a == e.b and e.a in outer:
+        feats.add("hairpin-on-chain-end")
+  if paths:
+    for p in paths:
+      ch, pr = check_path(doc, cl, p)
+      if ch is None or pr:
+        continue
+      seen_star = False
+      for n, _ in p:
+        if doc.segs[n].seq is None:
+          seen_star = True
+        elif seen_star:
+          feats.add("placeholder-before-sequence")
+      if doc.version == "gfa2":
+        walked = set(ch.adj[(x, ex)][1].idx for x, ex in p[:-1])
+        keep = (p[0][0], "L") if p[0][1] == "R" else None
+        for e in doc.dovetails:
+          if e.idx in walked:
+            continue
+          for x in (e.a, e.b):
+            if x[0] in ch.members and x != keep:
+              feats.add("gfa2-reattached-edge")
+  return "+".join(sorted(feats)) if feats else "plain"
